@@ -272,6 +272,23 @@ func genC10(r *Run) {
 		evals++
 		checkRouting(r, entry, xids, ths, evs, outs, Case{entry, args}.Line())
 	}
+	// the id of a call that returned with a full buffer is reused at once (many rounds: what the loop still does
+	// for the old call races with the new call's registration)
+	for _, v6 := range []bool{false, true} {
+		for k := 0; k < r.N(60, 1500); k++ {
+			a, b := reuseAfterFullBuffer(v6)
+			evals++
+			if a.status != 1 || a.payload != 10 {
+				r.Fail("c10-first-acceptable", fmt.Sprintf("v6=%v: held matcher, 7 datagrams, everything acceptable", v6), fmt.Sprintf("first call returned status %d payload %d, want payload 10", a.status, a.payload))
+				break
+			}
+			if b.status != 1 || b.payload != 99 {
+				r.Fail("c10-reused-id-after-full-buffer", fmt.Sprintf("v6=%v: call A (id 7) returns while its buffer is full and one more datagram is parked in the receive loop; call B takes id 7 at once; B's answer arrives (round %d)", v6, k),
+					fmt.Sprintf("call B ended with status %d payload %d instead of its own answer 99: its registration was lost", b.status, b.payload))
+				break
+			}
+		}
+	}
 	// a held matcher: the per-transaction buffer fills up, nothing solicited may be lost or reordered
 	for n := 2; n <= 7; n++ { // at most 7 datagrams can be in flight while the matcher is held
 		for acceptFrom := 0; acceptFrom <= n; acceptFrom++ { // n: nothing is acceptable
@@ -445,6 +462,95 @@ func heldMatcherScenario(v6 bool, payloads []byte, acceptFrom int) (seen []byte,
 		case <-done:
 		default:
 			closer() // nothing acceptable: end the call
+		}
+		<-done
+		closer()
+		synctest.Wait()
+	})
+	return
+}
+
+// reuseAfterFullBuffer: call A's buffer is full and the receive loop is parked on one more datagram for it when A
+// returns; a new call B then takes the same transaction id at once.  B is a call like any other: it must be
+// registered (its own answer reaches it), whatever the loop still does on behalf of A.
+func reuseAfterFullBuffer(v6 bool) (a, b callOutcome) {
+	bubbleNote = fmt.Sprintf("v6=%v: id reused at once after a call that returned with a full buffer and a parked datagram", v6)
+	runBubble(func(t *testing.T) {
+		conn := newLabConn()
+		gate := make(chan struct{})
+		var mu sync.Mutex
+		first := true
+		hold := func() {
+			mu.Lock()
+			h := first
+			first = false
+			mu.Unlock()
+			if h {
+				<-gate
+			}
+		}
+		done := make(chan struct{})
+		var closer func()
+		mk := func(p byte) []byte {
+			if v6 {
+				m := &dhcpv6.Message{MessageType: dhcpv6.MessageTypeReply, TransactionID: dhcpv6.TransactionID{0, 0, 7}}
+				m.AddOption(&dhcpv6.OptionGeneric{OptionCode: 4000, OptionData: []byte{p}})
+				return m.ToBytes()
+			}
+			m, _ := dhcpv4.New(dhcpv4.WithTransactionID(dhcpv4.TransactionID{0, 0, 0, 7}), dhcpv4.WithHwAddr(labHW),
+				dhcpv4.WithMessageType(dhcpv4.MessageTypeOffer), dhcpv4.WithGeneric(dhcpv4.GenericOptionCode(224), []byte{p}))
+			m.OpCode = dhcpv4.OpcodeBootReply
+			return m.ToBytes()
+		}
+		if v6 {
+			c, err := nclient6.NewWithConn(conn, labHW, nclient6.WithTimeout(time.Hour), nclient6.WithRetry(1))
+			if err != nil {
+				t.Fatal(err)
+			}
+			closer = func() { c.Close() }
+			go func() {
+				defer close(done)
+				req := &dhcpv6.Message{MessageType: dhcpv6.MessageTypeSolicit, TransactionID: dhcpv6.TransactionID{0, 0, 7}}
+				resp, err := c.SendAndRead(context.Background(), nclient6.AllDHCPRelayAgentsAndServers, req, func(m *dhcpv6.Message) bool { hold(); return true })
+				a = classify6(resp, err)
+				resp, err = c.SendAndRead(context.Background(), nclient6.AllDHCPRelayAgentsAndServers, req, func(m *dhcpv6.Message) bool { return payloadOfV6(m) == 99 })
+				b = classify6(resp, err)
+			}()
+		} else {
+			c, err := nclient4.NewWithConn(conn, labHW, nclient4.WithTimeout(time.Hour), nclient4.WithRetry(1))
+			if err != nil {
+				t.Fatal(err)
+			}
+			closer = func() { c.Close() }
+			go func() {
+				defer close(done)
+				req, _ := dhcpv4.NewDiscovery(labHW, dhcpv4.WithTransactionID(dhcpv4.TransactionID{0, 0, 0, 7}))
+				dst := &net.UDPAddr{IP: net.IPv4bcast, Port: 67}
+				resp, err := c.SendAndRead(context.Background(), dst, req, func(p *dhcpv4.DHCPv4) bool { hold(); return true })
+				a = classify4(resp, err)
+				resp, err = c.SendAndRead(context.Background(), dst, req, func(p *dhcpv4.DHCPv4) bool { return payloadOfV4(p) == 99 })
+				b = classify4(resp, err)
+			}()
+		}
+		synctest.Wait()
+		for i := 0; i < 7; i++ { // one in the matcher, five buffered, one the loop is parked on
+			select {
+			case conn.in <- mk(byte(10 + i)):
+			case <-conn.closed:
+			}
+			synctest.Wait()
+		}
+		close(gate) // A returns; B registers the same id straight away
+		synctest.Wait()
+		select {
+		case conn.in <- mk(99):
+		case <-conn.closed:
+		}
+		synctest.Wait()
+		select {
+		case <-done:
+		default:
+			closer() // B never got its answer: end it
 		}
 		<-done
 		closer()
